@@ -187,6 +187,71 @@ static void family_case(vh_rng* r, const char* who) {
   c = NULL; src = NULL;
 }
 
+/* ---------- owners that own each other ----------
+** A ring of objects whose destructors each delete the next one, all garbage in the same collection: the sweep
+** finalises whichever it reaches first, that destructor deletes the next, ... and the last one deletes the first,
+** which is being finalised at that moment.  Every member is finalised once and released once. */
+struct PRing { int64_t id; var next; int64_t canary; };
+static void PRing_New(var self, var args) { struct PRing* p = self; p->id = c_int(get(args, $I(0))); p->next = NULL; p->canary = MO_CANARY; mo_construct(p->id); }
+static void PRing_Del(var self) {
+  struct PRing* p = self;
+  if (!mo_destruct(p->id, p->canary)) { return; }
+  p->canary = 0;
+  if (p->next) { del(p->next); }
+}
+static var PRing = Cello(PRing, Instance(New, PRing_New, PRing_Del));
+
+static void __attribute__((noinline)) make_ring(int n, int64_t* ids) {
+  var first = NULL, prev = NULL;
+  for (int i = 0; i < n; i++) {
+    ids[i] = fresh_id();
+    var x = new(PRing, $I(ids[i]));
+    blk_record(x, ids[i]);
+    if (prev) { ((struct PRing*)prev)->next = x; } else { first = x; }
+    prev = x;
+  }
+  ((struct PRing*)prev)->next = first;
+}
+static void __attribute__((noinline)) ring_scrub(void) { volatile char pad[4096]; for (size_t i = 0; i < sizeof pad; i++) { pad[i] = 0; } }
+static void ring_case(vh_rng* r, const char* who) {
+  int64_t ids[4]; int n = 2 + (int)vh_below(r, 3);
+  make_ring(n, ids);
+  ring_scrub();
+  vh_op("%s ring of %d owners that delete each other, dropped", who, n);
+  collect_now();
+  int gone = 0;
+  for (int i = 0; i < n; i++) { vh_eval(); if (mo_state[ids[i]] == MO_RELEASED) { gone++; } else if (mo_state[ids[i]] != MO_CONSTRUCTED) { vh_violation("C06:ring:member-finalised-but-not-released", "ring member id %" PRId64 " is in state %d after the collection", ids[i], mo_state[ids[i]]); } }
+  if (gone == n) { vh_count("rings_of_mutual_owners_collected"); }
+  else if (gone != 0) { vh_violation("C06:ring:collected-in-part", "%d of the %d members of a dropped ring were finalised by one collection", gone, n); }
+  vh_count("rings_of_mutual_owners");
+}
+
+/* ---------- objects whose destructors allocate ----------
+** A destructor may build things (a message, a log record, a successor): PSpawn's allocates one to three managed probe
+** objects and drops them.  When the sweep finalises a PSpawn, these allocations land in the middle of the sweep; at
+** teardown they land in the middle of the last sweep.  Every PSpawn and every object its destructor made is still
+** finalised and released exactly once.  The ids of the children are reserved when the PSpawn is made. */
+struct PSpawn { int64_t id; int64_t nkids; int64_t canary; };
+static void PSpawn_New(var self, var args) { struct PSpawn* p = self; p->id = c_int(get(args, $I(0))); p->nkids = c_int(get(args, $I(1))); p->canary = MO_CANARY; mo_construct(p->id); }
+static void PSpawn_Del(var self) {
+  struct PSpawn* p = self;
+  if (!mo_destruct(p->id, p->canary)) { return; }
+  p->canary = 0;
+  /* (what is allocated while the collector is stopped is nobody's but its maker's: it is deleted by hand at once) */
+  int stopped = !running(current(GC));
+  for (int64_t k = 0; k < p->nkids; k++) { var x = new(PNode, $I(p->id + 1 + k)); blk_record(x, p->id + 1 + k); if (stopped) { del(x); } x = NULL; }
+}
+static var PSpawn = Cello(PSpawn, Instance(New, PSpawn_New, PSpawn_Del));
+static unsigned char spawn_role[MO_MAX];          /* 1: a PSpawn, 2..4: the first, second, third object its destructor makes */
+static var new_spawner(vh_rng* r) {
+  int64_t k = 1 + (int64_t)vh_below(r, 3);
+  int64_t id = __sync_fetch_and_add(&id_counter, 1 + k);
+  if (id + k < MO_MAX) { spawn_role[id] = 1; for (int64_t j = 1; j <= k; j++) { spawn_role[id + j] = (unsigned char)(1 + j); } }
+  var p = new(PSpawn, $I(id), $I(k));
+  blk_record(p, id);
+  return p;
+}
+
 /* ---------- the mutator ---------- */
 
 static void run_ops(vh_rng* r, struct world* w, int nops, const char* who) {
@@ -290,8 +355,10 @@ static void run_ops(vh_rng* r, struct world* w, int nops, const char* who) {
       vh_op("%s garbage container of %d boxes", who, n);
       vh_count("containers_of_boxes");
       c = NULL;
-    } else if (roll < 63 && !w->stopped) {
+    } else if (roll < 62 && !w->stopped) {
       family_case(r, who);
+    } else if (roll < 63 && !w->stopped) {
+      ring_case(r, who);
     } else if (roll < 72) {
       if (h->p) { delete_held(h, w->stopped ? "-inside-stop-window" : ""); if (w->stopped) { vh_count("deletions_inside_stop_window"); } }
     } else if (roll < 80) {
@@ -303,9 +370,14 @@ static void run_ops(vh_rng* r, struct world* w, int nops, const char* who) {
     } else if (roll < 86) {
       /* garbage burst: threshold collections */
       if (!w->stopped) {
-        int n = 20 + (int)vh_below(r, 60);
-        for (int i = 0; i < n; i++) { int64_t id; var g = new_probe(r, HK_MANAGED, &id); g = NULL; }
-        vh_op("%s garbage x%d", who, n);
+        int n = 20 + (int)vh_below(r, 60), spawners = 0;
+        int with_spawners = vh_chance(r, 50);
+        for (int i = 0; i < n; i++) {
+          if (with_spawners && vh_chance(r, 60)) { var g = new_spawner(r); g = NULL; spawners++; }
+          else { int64_t id; var g = new_probe(r, HK_MANAGED, &id); g = NULL; }
+        }
+        if (spawners) { vh_count_n("garbage_objects_whose_destructors_allocate", (uint64_t)spawners); }
+        vh_op("%s garbage x%d (%d with allocating destructors)", who, n, spawners);
       }
     } else if (roll < 93) {
       if (!w->stopped) { stop(gc); w->stopped = 1; vh_op("%s stop", who); vh_count("stop_windows"); }
@@ -343,7 +415,8 @@ static long check_all_released(int64_t from, int64_t to, const char* where) {
       bad++;
       char key[96];
       snprintf(key, sizeof key, "C06:teardown:%s:object-%s", where, mo_state[id] == MO_DESTRUCTED ? "finalised-but-not-released" : "never-finalised");
-      vh_violation(key, "object id %" PRId64 " is in state %d after the collector of its thread was torn down", id, mo_state[id]);
+      vh_violation(key, "object id %" PRId64 " (%s) is in state %d after the collector of its thread was torn down", id,
+                   spawn_role[id] == 0 ? "ordinary probe" : spawn_role[id] == 1 ? "an object whose destructor allocates" : "allocated by a destructor", mo_state[id]);
     }
   }
   return bad;
